@@ -155,6 +155,9 @@ func c09Progress(r *kit.Run, idx int64, rng *rand.Rand) {
 		cleanup()
 		if viol == "" && inconclusive == "" {
 			r.Count("messages_dispatched", h.popped.Load())
+			if r.WantSample() {
+				r.Sample(desc)
+			}
 			r.Distinct(fmt.Sprintf("progress|%s|par=%v|w=%d|buf=%d|burst=%d|subs=%d|p=%d", cfg.Backend, cfg.Parallel, cfg.Workers, cfg.Buffer, burst, nsub, procs))
 		}
 	})
@@ -337,6 +340,9 @@ func c09Shutdown(r *kit.Run, idx int64, rng *rand.Rand) {
 		if viol == "" && inconclusive == "" {
 			r.Distinct(fmt.Sprintf("shutdown|%s|par=%v|w=%d|buf=%d|%s|%s|wf=%v|p=%d", cfg.Backend, cfg.Parallel, cfg.Workers, cfg.Buffer, point, how, waitFirst, procs))
 			r.Count("shutdowns_checked", 1)
+			if r.WantSample() {
+				r.Sample(desc)
+			}
 		}
 	})
 	c09Verdict(r, idx, cfg, desc, violKind, viol, inconclusive)
